@@ -6,25 +6,28 @@
    under SOME schedule of the network thread (tid 0) and the handshake workers, one shared-state
    operation per step; the theorems hold for EVERY reachable s, i.e. for every interleaving.
 
-   Scenario [S0 p0 c0 stored0 lrs0 g0 ws0 e cn0 b0 hsid ok static dsids]: a layer in any quiescent
-   condition — protocol state p0 <> handshake, any receive counter c0, stored server key stored0
-   (0 = none), layer._rs lrs0, g0 earlier attempts whose workers ws0 have all terminated, edge routing
-   on/off e, cn0 earlier connections — receives an auth event, then the server hello of the new
+   Scenario [S0 p0 c0 stored0 lrs0 g0 ws0 e cn0 b0 pc0 pres0 cfg hsid ok static dsids]: a layer in any
+   quiescent condition — protocol state p0 <> handshake, any receive counter c0, stored server key
+   stored0 (0 = none), layer._rs lrs0, g0 earlier attempts whose workers ws0 have all terminated
+   (each holding whatever ClientConfig it was given), edge routing on/off e, cn0 earlier connections,
+   pc0 = the ClientConfig an earlier on_auth built, pres0 = the payloads presented on earlier
+   connections — receives an auth event carrying the configuration cfg in force at that moment
+   (account, passive flag, client attributes: [ccfg]), then the server hello of the new
    connection (oracle bit ok; static <> 0 iff it carries a server key: XX / IK / IK->XXfallback are
    the three combinations of stored0 and static), then transport segments dsids (any number).
    auth_ok = the hello authenticates and fits the pattern; a server that failed authentication sends
    no frames (hypothesis Hfail below). *)
-From YV Require Import Common.Tac C04.C04Model C04.C04Proofs.
+From YV Require Import Common.Tac C04.C04Model C04.C04Proofs C04.C04ProofsHist C04.C04ProofsEmbed.
 
 (* Frames delivered upward are, at every moment and under every interleaving, a prefix of the
    transport segments in order, the i-th decrypted with counter i, none twice; when every thread has
    finished, all of them have been delivered (including those that arrived while the handshake was
    still completing). *)
 Theorem C04_in_order_once :
-  forall p0 c0 stored0 lrs0 g0 ws0 e cn0 b0 hsid ok static dsids,
+  forall p0 c0 stored0 lrs0 g0 ws0 e cn0 b0 pc0 pres0 cfg hsid ok static dsids,
     p0 <> PHs -> Forall (old_ok g0) ws0 -> lookup (cn0 + 1) b0 = None ->
     (auth_ok stored0 ok static = false -> dsids = []) ->
-    forall s, reach (S0 p0 c0 stored0 lrs0 g0 ws0 e cn0 b0 hsid ok static dsids) s ->
+    forall s, reach (S0 p0 c0 stored0 lrs0 g0 ws0 e cn0 b0 pc0 pres0 cfg hsid ok static dsids) s ->
       (exists tl, data dsids = delivered s ++ tl) /\
       ups (log s) = number 0 (delivered s) /\
       (all_done s = true -> ups (log s) = number 0 (data dsids)).
@@ -34,10 +37,10 @@ Print Assumptions C04_in_order_once.
 (* In every reachable state either every thread has finished or some thread can take a step:
    no interleaving leaves a thread waiting on the queue or the flush lock forever. *)
 Theorem C04_no_deadlock :
-  forall p0 c0 stored0 lrs0 g0 ws0 e cn0 b0 hsid ok static dsids,
+  forall p0 c0 stored0 lrs0 g0 ws0 e cn0 b0 pc0 pres0 cfg hsid ok static dsids,
     p0 <> PHs -> Forall (old_ok g0) ws0 -> lookup (cn0 + 1) b0 = None ->
     (auth_ok stored0 ok static = false -> dsids = []) ->
-    forall s, reach (S0 p0 c0 stored0 lrs0 g0 ws0 e cn0 b0 hsid ok static dsids) s -> stuck s = false.
+    forall s, reach (S0 p0 c0 stored0 lrs0 g0 ws0 e cn0 b0 pc0 pres0 cfg hsid ok static dsids) s -> stuck s = false.
 Proof. exact no_deadlock_thm. Qed.
 Print Assumptions C04_no_deadlock.
 
@@ -45,10 +48,10 @@ Print Assumptions C04_no_deadlock.
    C04_no_deadlock they can always do) exactly the handshake-failed event followed by the <failure>
    stanza went upward, no frame, no profile write; if it authenticates, no failure is ever reported. *)
 Theorem C04_failure_reported :
-  forall p0 c0 stored0 lrs0 g0 ws0 e cn0 b0 hsid ok static dsids,
+  forall p0 c0 stored0 lrs0 g0 ws0 e cn0 b0 pc0 pres0 cfg hsid ok static dsids,
     p0 <> PHs -> Forall (old_ok g0) ws0 -> lookup (cn0 + 1) b0 = None ->
     (auth_ok stored0 ok static = false -> dsids = []) ->
-    forall s, reach (S0 p0 c0 stored0 lrs0 g0 ws0 e cn0 b0 hsid ok static dsids) s ->
+    forall s, reach (S0 p0 c0 stored0 lrs0 g0 ws0 e cn0 b0 pc0 pres0 cfg hsid ok static dsids) s ->
       (auth_ok stored0 ok static = false -> all_done s = true ->
          failures (log s) = [EEvent; EFailure] /\ ups (log s) = [] /\ persists (log s) = []) /\
       (auth_ok stored0 ok static = true -> failures (log s) = []).
@@ -61,10 +64,10 @@ Print Assumptions C04_failure_reported.
    (The design's stronger "before ANY frame is delivered" is false of the code, see
    C04_persist_before_frames_refuted; the property text does not ask for it.) *)
 Theorem C04_rs_persisted :
-  forall p0 c0 stored0 lrs0 g0 ws0 e cn0 b0 hsid ok static dsids,
+  forall p0 c0 stored0 lrs0 g0 ws0 e cn0 b0 pc0 pres0 cfg hsid ok static dsids,
     p0 <> PHs -> Forall (old_ok g0) ws0 -> lookup (cn0 + 1) b0 = None ->
     (auth_ok stored0 ok static = false -> dsids = []) ->
-    forall s, reach (S0 p0 c0 stored0 lrs0 g0 ws0 e cn0 b0 hsid ok static dsids) s ->
+    forall s, reach (S0 p0 c0 stored0 lrs0 g0 ws0 e cn0 b0 pc0 pres0 cfg hsid ok static dsids) s ->
       (persists (log s) = [] \/
        (persists (log s) = [nrs stored0 static] /\ stored0 <> nrs stored0 static /\
         stored s = nrs stored0 static)) /\
@@ -86,10 +89,10 @@ Print Assumptions C04_persist_before_frames_refuted.
    counter, stored key, number of earlier attempts/connections).  The remaining histories are exactly
    the open known finding; its witnesses are the two _refuted theorems below. *)
 Theorem C04_reconnect_fresh_partial :
-  forall p0 c0 stored0 lrs0 g0 ws0 e cn0 b0 hsid ok static dsids,
+  forall p0 c0 stored0 lrs0 g0 ws0 e cn0 b0 pc0 pres0 cfg hsid ok static dsids,
     p0 <> PHs -> Forall (old_ok g0) ws0 -> lookup (cn0 + 1) b0 = None ->
     auth_ok stored0 ok static = true ->
-    forall s, reach (S0 p0 c0 stored0 lrs0 g0 ws0 e cn0 b0 hsid ok static dsids) s ->
+    forall s, reach (S0 p0 c0 stored0 lrs0 g0 ws0 e cn0 b0 pc0 pres0 cfg hsid ok static dsids) s ->
       stuck s = false /\ failures (log s) = [] /\
       (all_done s = true -> ups (log s) = number 0 (data dsids) /\ stored s = nrs stored0 static).
 Proof. exact reconnect_fresh_partial_thm. Qed.
@@ -100,13 +103,13 @@ Print Assumptions C04_reconnect_fresh_partial.
 Theorem C04_reconnect_fresh_refuted :
   exists s, run rc_S0 rc_sched = Some s /\
             failures (log s) = [EEvent; EFailure] /\ stuck s = true /\
-            find_w 1 (workers s) = Some (mkW 1 0 HGet) /\ ps s = PErr.
+            find_w 1 (workers s) = Some (mkW 1 0 cfgB HGet) /\ ps s = PErr.
 Proof. exact reconnect_fresh_refuted. Qed.
 Print Assumptions C04_reconnect_fresh_refuted.
 
 Theorem C04_reconnect_stale_waiter_refuted :
   exists s, run rc_S0 rc_sched2 = Some s /\ ps s = PTr /\ stuck s = true /\
-            find_w 0 (workers s) = Some (mkW 0 0 HGet).
+            find_w 0 (workers s) = Some (mkW 0 0 cfgA HGet).
 Proof. exact reconnect_stale_waiter_refuted. Qed.
 Print Assumptions C04_reconnect_stale_waiter_refuted.
 
@@ -118,3 +121,104 @@ Theorem C04_nonvacuous :
   exists s, reach ex_S0 s /\ all_done s = true /\ ups (log s) = number 0 (map SData [1; 2; 3]%N).
 Proof. split; [exact nonvacuous_hyps | exact nonvacuous_reach]. Qed.
 Print Assumptions C04_nonvacuous.
+
+(* ---------------------------------------------------------------------------------------------------
+   "... presents the configured account, passive flag and client attributes", over
+   connect/disconnect/reconnect histories x configurations.
+
+   [pres s] = the payload-bearing handshake messages written towards the server so far:
+   (connection, 1 = client hello | 2 = client finish, payload).  The server decrypts the payload of
+   the client hello when it accepts the stored key (IK) and the payload of the client finish
+   otherwise (XX, XXfallback); both carry the same ClientConfig of the worker. *)
+
+(* One login on a layer in ANY quiescent condition, every interleaving: everything written during
+   this attempt goes out on this attempt's connection and carries exactly the configuration cfg of
+   THIS auth event — whatever earlier attempts were given or presented (ws0, pc0, pres0 are
+   arbitrary) —; after a successful login it has been presented (non-empty: hello entry iff a key was
+   stored, finish entry iff the server hello carried a key or none was stored); after a failed one
+   only the IK hello (if any) went out. *)
+Theorem C04_presents_configured :
+  forall p0 c0 stored0 lrs0 g0 ws0 e cn0 b0 pc0 pres0 cfg hsid ok static dsids,
+    p0 <> PHs -> Forall (old_ok g0) ws0 -> lookup (cn0 + 1) b0 = None ->
+    (auth_ok stored0 ok static = false -> dsids = []) ->
+    forall s, reach (S0 p0 c0 stored0 lrs0 g0 ws0 e cn0 b0 pc0 pres0 cfg hsid ok static dsids) s ->
+      (exists tl, pres s = pres0 ++ tl /\
+                  forall x, In x tl -> x = (cn cn0, 1%N, cfg) \/ x = (cn cn0, 2%N, cfg)) /\
+      (all_done s = true -> auth_ok stored0 ok static = true ->
+         pres s = pres0 ++ presented_ok stored0 cn0 cfg static /\ presented_ok stored0 cn0 cfg static <> []) /\
+      (all_done s = true -> auth_ok stored0 ok static = false -> pres s = pres0 ++ hello_entry stored0 cn0 cfg).
+Proof. exact presented_thm. Qed.
+Print Assumptions C04_presents_configured.
+
+(* Histories of ANY number of logins on one layer instance ([hrun q xs s']: login after login, each
+   from the state the previous one left when its threads had finished — the domain of
+   C04_reconnect_fresh_partial —, each under every interleaving, with or without a disconnect event
+   in between, every login with its own configuration / server answer / frames): the payloads
+   presented during the history are exactly [added]; on the connection of login i only the
+   configuration of auth event i is ever presented, never an earlier login's; and when login i
+   succeeds it has been presented.
+   Full statement wanted: for EVERY connect/disconnect/reconnect history.  Missing part: histories in
+   which a disconnect cuts off a live handshake worker — the open reconnect finding (there the stale
+   worker may complete the NEXT connection's handshake with the configuration it captured). *)
+Theorem C04_presents_configured_history_partial :
+  forall xs q s',
+    quiescent q -> sessions_ok (stored q) xs -> hrun q xs s' ->
+    exists added, pres s' = pres q ++ added /\
+      (forall c k p, In (c, k, p) added ->
+         exists i x, nth_error xs i = Some x /\ c = (conn q + 1 + N.of_nat i)%N /\ p = s_cfg x) /\
+      (forall i x, nth_error xs i = Some x ->
+         auth_ok (stored_before (stored q) xs i) (s_ok x) (s_static x) = true ->
+         exists k, In ((conn q + 1 + N.of_nat i)%N, k, s_cfg x) added).
+Proof. exact presents_configured_history_thm. Qed.
+Print Assumptions C04_presents_configured_history_partial.
+
+(* ... the exact list, and the same at every moment DURING the next login. *)
+Theorem C04_presented_history_exact :
+  forall xs q s',
+    quiescent q -> sessions_ok (stored q) xs -> hrun q xs s' ->
+    pres s' = pres q ++ expect_pres (conn q) (stored q) xs /\ quiescent s'.
+Proof. exact presented_history_thm. Qed.
+Print Assumptions C04_presented_history_exact.
+
+Theorem C04_presented_history_during :
+  forall xs q s1 x t,
+    quiescent q -> sessions_ok (stored q) xs -> hrun q xs s1 ->
+    (auth_ok (stored s1) (s_ok x) (s_static x) = false -> s_dsids x = []) ->
+    reach (sess_start s1 x) t ->
+    exists tl, pres t = pres q ++ expect_pres (conn q) (stored q) xs ++ tl /\
+               forall e, In e tl -> e = (conn s1 + 1, 1, s_cfg x)%N \/ e = (conn s1 + 1, 2, s_cfg x)%N.
+Proof. exact presented_history_during_thm. Qed.
+Print Assumptions C04_presented_history_during.
+
+(* The chained histories are runs of the ONE-script model (all logins' events, disconnects included,
+   in one script — the model real traces are replayed through): those schedules in which the network
+   thread handles the next disconnect/auth event after the running login's threads have finished. *)
+Theorem C04_history_embeds :
+  forall xs q s' L0,
+    idle q -> sessions_ok (stored q) xs -> hrun q xs s' ->
+    exists L, reach (set_log L0 (set_script (hist_script (conn q) xs) q)) (set_log L s').
+Proof. exact hrun_embeds. Qed.
+Print Assumptions C04_history_embeds.
+
+(* A variant of on_auth that keeps the ClientConfig per username (seeded defect C04-2) violates the
+   clause — passive login, disconnect, non-passive login: the second login presents the first login's
+   passive flag and attributes; the faithful model, same script and schedule, presents what the
+   history theorem says. *)
+Theorem C04_cached_config_refuted :
+  (exists s, run h_S (auto_sched 400 h_S) = Some s /\ all_done s = true /\
+             pres s = expect_pres 0 0 [h_A; h_B]) /\
+  (exists s, run (cached_variant h_S) (auto_sched 400 (cached_variant h_S)) = Some s /\ all_done s = true /\
+             pres s = [(1, 2, cfgA); (2, 1, cfgA)]%N /\ pres s <> expect_pres 0 0 [h_A; h_B]).
+Proof. exact cached_config_refuted. Qed.
+Print Assumptions C04_cached_config_refuted.
+
+(* Non-vacuity of the history theorems: two logins on a fresh layer that differ in the passive flag
+   (passive XX login, disconnect, non-passive IK login); hypotheses hold, the chained run exists, and
+   the second connection carries the second configuration. *)
+Theorem C04_history_nonvacuous :
+  quiescent h_fresh /\ sessions_ok (stored h_fresh) [h_A; h_B] /\
+  c_passive (s_cfg h_A) <> c_passive (s_cfg h_B) /\
+  exists s', hrun h_fresh [h_A; h_B] s' /\
+             pres s' = [(1, 2, cfgA); (2, 1, cfgB)]%N /\ pres s' = expect_pres 0 0 [h_A; h_B].
+Proof. exact history_nonvacuous. Qed.
+Print Assumptions C04_history_nonvacuous.
